@@ -30,7 +30,7 @@ AA = {"G": "GLY", "A": "ALA", "V": "VAL", "C": "CYS", "P": "PRO", "L": "LEU", "I
 
 
 def plan(tier, seed):
-    n = 2400 if tier == "quick" else 60000
+    n = 5000 if tier == "quick" else 60000
     return [["file", i] for i in range(n)] + [["genseq", i] for i in range(n // 5)] + [["seq", i] for i in range(n // 8)]
 
 
